@@ -3,6 +3,7 @@ import BppProofs.Lemmas.TreeValid
 import BppProofs.Lemmas.TreeHistory
 import BppProofs.Lemmas.TreeRefCheck
 import BppProofs.Lemmas.TreeRefSound
+import BppProofs.Lemmas.TreeWalk
 /-!
 # C15 — the validity predicate of the tree container at full strength
 
@@ -14,6 +15,8 @@ at every moment and regardless of earlier queries and edits:
   nodes other than the root and strictly decreasing a depth towards the root, whose father-son pairs
   are exactly the relations of the graph (each way round when the graph is undirected).  Both
   directions are proved on the traversal itself (`Lemmas/TreeDfsSound.lean`, `TreeDfsComplete.lean`).
+* `isTree_iff_unique_path` — for a directed graph that is: the root is a node and every node is joined to the root by
+  exactly one directed path (`UpWalk`: the path listed from the node back to the root).
 * `isTree_answers`, `isTree_raises_iff` — it answers whenever the root is a node and raises exactly when it is not.
 * `history_consistent` — every history of the container keeps consistent tables.
 * `isValid_iff` — for every history, the (cached) `isValid()` answers true iff `IsTreeFrom` of the current graph.
@@ -29,6 +32,13 @@ open Bpp Bpp.Graph
 
 /-- the traversal decides "tree spanning all nodes from the root" -/
 theorem isTree_iff (g : G) (hc : Consistent g) : T.isTree g = .ok true ↔ IsTreeFrom g := T.isTree_iff hc
+
+/-- for a rooted (directed) container: `isTree` answers true iff the root is a node and every node is
+joined to the root by exactly one directed path -/
+theorem isTree_iff_unique_path (g : G) (hc : Consistent g) (hd : g.directed = true) :
+    T.isTree g = .ok true ↔
+      (g.hasNode g.root = true ∧ ∀ n, g.hasNode n = true → ∃ w, UpWalk g g.root n w ∧ ∀ w', UpWalk g g.root n w' → w' = w) :=
+  (T.isTree_iff hc).trans (isTreeFrom_iff_unique_path hc hd)
 
 /-- it answers (true or false) whenever the root is a node ... -/
 theorem isTree_answers (g : G) (hc : Consistent g) (hr : g.hasNode g.root = true) : ∃ b, T.isTree g = .ok b :=
